@@ -100,6 +100,33 @@ func (p *byteProv) walk(v ssa.Value, at ssa.Instruction, depth int) {
 			p.add(bsUnknown, shortPath(vpath(v)), t)
 			return
 		}
+		// a package-level table: what its initialiser (and any other store in the package) puts there
+		if g, ok := t.X.(*ssa.Global); ok {
+			n := 0
+			var fns []*ssa.Function
+			fns = append(fns, p.c.allFns...)
+			if g.Pkg != nil {
+				if fi := g.Pkg.Func("init"); fi != nil {
+					fns = append(fns, fi)
+				}
+			}
+			seenSt := map[*ssa.Store]bool{}
+			for _, fn := range fns {
+				for _, b := range fn.Blocks {
+					for _, in := range b.Instrs {
+						if st, ok := in.(*ssa.Store); ok && st.Addr == ssa.Value(g) && !seenSt[st] {
+							seenSt[st] = true
+							n++
+							p.walk(st.Val, nil, depth+1)
+						}
+					}
+				}
+			}
+			if n == 0 {
+				p.add(bsUnknown, "global:"+g.Name(), t)
+			}
+			return
+		}
 		// load of a local cell (possibly captured by a closure): every store to the cell
 		cell := cellRoot(t.X)
 		if cell == nil {
